@@ -305,3 +305,15 @@ def run_r25c(chk, F):
     chk.unit("range-precondition sites discharged by the audited table", aud)
     chk.floor("range-precondition sites in scope", n, 25)
     chk.floor("position-taking handler entry points", len(entries) - len(missing), 19)
+
+
+def run_r25d(chk, F):
+    """R25d: Vec / slice indexing, split_at, remove/insert/drain in emmylua_ls code reachable from the position-taking handlers
+    (string ranges and TextRange construction are R25c's)"""
+    from rules import c12c
+    entries, missing, cg, reach = scope(F)
+    kinds = tuple(k for k in c12c.KINDS if k not in ("textrange-new", "str-slice"))
+    n, rec, aud = c12c.bounds_audit(chk, F, "R25d", "C25", "emmylua_ls", "emmylua_ls code reachable from the position-taking handlers",
+                                    "the request handler panics", only=set(reach), kinds=kinds)
+    chk.floor("index/slice sites in position-handler code", n, 50)
+    chk.floor("index/slice sites in position-handler code discharged by a derived bounds fact", rec, 30)
